@@ -6,7 +6,8 @@
 (* the stage reachability that C03/C08 rely on: generate only after a      *)
 (* clean check).                                                           *)
 (*                                                                         *)
-(* A project is [schema: Seq(faults), ops: Seq(faults), commands, format]; *)
+(* A project is [schema: Seq(faults), ops: Seq(faults), commands, gen];    *)
+(* gen \subseteq {"resolvers", "server"}: optional outputs configured;     *)
 (* schema fault kinds: "parse", "ext" (orphan extension), "check";         *)
 (* operation fault kinds: "parse", "import" (dangling import), "check",    *)
 (* "libcheck" (fault in a fragment only another file imports and spreads). *)
@@ -33,8 +34,13 @@ SchemaWith(f) == {SF(i) : i \in {k \in DOMAIN P.schema : f \in P.schema[k]}}
 OpsWith(f) == {OF(j) : j \in {k \in DOMAIN P.ops : f \in P.ops[k]}}
 AnyFault == \E i \in DOMAIN P.schema : P.schema[i] # {} \/ \E j \in DOMAIN P.ops : P.ops[j] # {}
 
-(* what `generate` writes for a clean project: schema types (+map) and one declaration (+map) per operation file *)
-Outputs == {<<"schemaTypes">>, <<"schemaTypesMap">>} \cup UNION {{<<"opTypes", j>>, <<"opTypesMap", j>>} : j \in DOMAIN P.ops}
+(* what `generate` writes for a clean project: schema types (+map), one declaration (+map) per operation file and, when *)
+(* configured (P.gen), the resolver types (+map) and the server schema module (no map)                                  *)
+GenOf(p) == IF "gen" \in DOMAIN p THEN p.gen ELSE {}
+OutputsOf(p) == {<<"schemaTypes">>, <<"schemaTypesMap">>} \cup UNION {{<<"opTypes", j>>, <<"opTypesMap", j>>} : j \in DOMAIN p.ops}
+                \cup (IF "resolvers" \in GenOf(p) THEN {<<"resolvers">>, <<"resolversMap">>} ELSE {})
+                \cup (IF "server" \in GenOf(p) THEN {<<"server">>} ELSE {})
+Outputs == OutputsOf(P)
 
 Fail(loc, nm) == /\ cmdError' = loc /\ named' = named \cup nm /\ exit' = 1 /\ stage' = "output"
                  /\ UNCHANGED <<P, idx, checked, written, listed>>
@@ -92,7 +98,7 @@ PNext == LoadSchemaFile \/ LoadOps \/ Command \/ Output
 (* TLC checks that the stage machine above ends exactly there (OutcomeAgrees).              *)
 XSchemaWith(p, f) == {SF(i) : i \in {k \in DOMAIN p.schema : f \in p.schema[k]}}
 XOpsWith(p, f) == {OF(j) : j \in {k \in DOMAIN p.ops : f \in p.ops[k]}}
-XOutputs(p) == {<<"schemaTypes">>, <<"schemaTypesMap">>} \cup UNION {{<<"opTypes", j>>, <<"opTypesMap", j>>} : j \in DOMAIN p.ops}
+XOutputs(p) == OutputsOf(p)
 FirstOf(S) == CHOOSE x \in S : \A y \in S : x[2] <= y[2]
 Expected(p) ==
   LET fail(st, some, all) == [exit |-> 1, failing |-> st, some |-> some, all |-> all, writes |-> {}]
